@@ -732,6 +732,10 @@ func detectExprToken(vs []string) bool {
 		return true
 	}
 	v := vs[1]
+	if len(v) == 0 {
+		// an empty token cannot start an expression
+		return false
+	}
 	if (v[0] >= 'a' && v[0] <= 'z') || (v[0] >= 'A' && v[0] <= 'Z') {
 		if (v[0] == 'i' || v[0] == 'I') && strings.ToLower(v) == "inf" {
 			return false
